@@ -333,6 +333,23 @@ def claim_c01(kind, mm):
     return False
 
 
+def claim_c02(kind, mm):
+    k = kind.split(":")[0]
+    return (k == "Pull" and "MResp" in mm) or "MMsgs" in mm or (k == "Publish" and "MResp" in mm)
+
+
+def claim_c04(kind, mm):
+    k = kind.split(":")[0]
+    return (k == "Pull" and ("MDels" in mm or "illegal-fuzz" in mm or "MResp" in mm or "illegal-selection" in mm)) or \
+        (k in ("ModAck", "StreamAckNack") and ("MDels" in mm or "illegal-fuzz" in mm))
+
+
+def claim_c06(kind, mm):
+    k = kind.split(":")[0]
+    return (k in ("Pull", "StreamAckNack") or kind == "Job:DeadLetterSweep") and \
+        ("MDels" in mm or "delivery" in mm or "illegal-choice" in mm or "MResp" in mm)
+
+
 def claim_c03(kind, mm):
     return kind.split(":")[0] in ("Ack", "ModAck", "StreamAckNack")
 
@@ -360,6 +377,24 @@ CHECKS = {
         parts=[engine_part("delivery", 32, 600, 45, claim_c01, ["deliveries_created", "pull_nonempty", "redelivery", "nack_rescheduled"])],
         rule="generated histories (profile delivery: publish/pull/ack/modack/nack/seek/jobs/clock jumps) against the production gRPC server; every step is checked "
              "locally: model step from the implementation's pre-state vs response and full five-table post-state; non-trivial = deliveries created, non-empty pulls, redeliveries",
+        assumptions=BUS_ASSUME),
+    "C02": dict(
+        props=["C02"],
+        parts=[engine_part("general", 32, 600, 45, claim_c02, ["pull_nonempty", "publish_ok", "publish_batch"])],
+        rule="engine profile general over several topics and subscriptions sharing topics; owned projection: Pull responses (ack id, message id, payload as canonical JSON value, "
+             "attributes, ordering key, publish time, attempt) and the messages table; payloads cover whitespace, unicode, HTML-sensitive characters, big/exponent numbers, nesting, non-JSON, empty",
+        assumptions=BUS_ASSUME + ["payloads are compared by JSON value (the code stores the compacted, HTML-escaped form)"]),
+    "C04": dict(
+        props=["C04", "C04backoff"],
+        parts=[engine_part("delivery", 32, 600, 45, claim_c04, ["redelivery", "modack_effective", "nack_rescheduled", "pull_nonempty"]), part_backoff],
+        rule="engine profile delivery (retry policies absent/min/max/both from 200 ms to 100 s, clock jumps to lease deadline -/+ margin) + grid of NextDelayFor over policies x attempts; "
+             "non-trivial = redeliveries, effective deadline changes, nacks",
+        assumptions=BUS_ASSUME + [T_FLOAT, "concurrent pullers: interleavings are at transaction granularity (serialisable database), covered by the history theorems; not exhibited on the code here"]),
+    "C06": dict(
+        props=["C06"],
+        parts=[engine_part("delivery", 32, 600, 45, claim_c06, ["pull_deadlettered", "nack_deadlettered", "job_effective:DeadLetterSweep"])],
+        rule="engine profile delivery with dead-letter policies N in 1..4 and default, topologies from generated topics (no subscriber, several, filtered, ordered, deleted topic, self loop); "
+             "non-trivial = deliveries dead-lettered by pull / nack / sweep",
         assumptions=BUS_ASSUME),
     "C03": dict(
         props=["C03"],
